@@ -328,7 +328,8 @@ def shapes(tier, seed):
         opads += [(4, 4, 2, [0, 3]), (4, 5, 1, [0]), (4, 2, 2, [3])]
     for (n, ne, sp, fr) in opads:
         out.append(Shape(f"pad/rohf/n{n}e{ne}s{sp}/{fr}", h_pad, dict(n_mos=n, ne=ne, frozen=fr, spin=sp), modules=MODS, max_paths=8))
-    upads = [(3, 3, 1, [[0], []]), (3, 4, 0, [[0], [0, 2]]), (3, 3, 1, [[0, 2], [0]])]
+    upads = [(3, 3, 1, [[0], []]), (3, 4, 0, [[0], [0, 2]]), (3, 3, 1, [[0, 2], [0]]),
+             (3, 2, 0, [[2], [1]]), (3, 4, 0, [[0, 2], [0, 1]])]          # same number of frozen orbitals per spin, different indices
     if tier == "thorough":
         upads += [(3, 4, 0, [[], [1]]), (3, 5, 1, [[0, 1], [0]]), (3, 2, 0, [[2], []]), (3, 3, 1, [[1], [2]])]
     for (n, ne, sp, fr) in upads:
